@@ -383,6 +383,8 @@ async fn scenario(a: &ShardArgs, idx: u64) {
     }
 
     let nreq = r.range(1, 6);
+    // sequence number of a solicited fragment that still awaits its confirm (a series left unfinished)
+    let mut pending: Option<u8> = None;
     for _ in 0..nreq {
         if kind == 1 && npoints > 0 {
             // put the session into a solicited confirm wait: a read that needs confirmation
@@ -440,6 +442,13 @@ async fn scenario(a: &ShardArgs, idx: u64) {
         let (mut sol, unsol, other) = split(rx);
         for u in &unsol {
             cx.check_unsol(u);
+        }
+        if req.func == ra::F_CONFIRM && req.bytes.len() == 2 && req.bytes[0] & ra::UNS == 0 && pending == Some(req.bytes[0] & 0x0F) {
+            // the generated CONFIRM happens to be the one the outstation is waiting for: what follows is the
+            // continuation of the earlier series, not an answer to a CONFIRM
+            out::count("generated_confirm_continued_a_series", 1);
+            pending = sol.last().filter(|f| f.len() >= 2 && f[0] & ra::CON != 0).map(|f| f[0] & 0x0F);
+            continue;
         }
         for o in &other {
             if let Rx::Garbage { why, bytes, .. } = o {
@@ -566,6 +575,7 @@ async fn scenario(a: &ShardArgs, idx: u64) {
             k += s.len();
             last = s.last().cloned();
         }
+        pending = last.as_ref().filter(|f| f.len() >= 2 && f[0] & ra::CON != 0 && f[0] & ra::FIN == 0).map(|f| f[0] & 0x0F);
         if out::sample_count() < 3 && !sol.is_empty() {
             out::sample(J::obj(vec![
                 ("state", J::s(state)),
